@@ -57,6 +57,9 @@ both('conds', ['relation p(i32, i32)', 'relation o(Option<i32>, i32)', 'relation
       'res(x, y) <-- foo(x, y) let s = x + y if s > 2, bar(y, z)',
       'q(*v) <-- p(x, y), o(w, y) if let Some(v) = w',
       'res(x, w) <-- foo(x, y), for w in 0..*y, if w > 1'], tags=['conds'])
+both('paren_pat', ['relation foo(i32)', 'relation bar(i32, i32)', 'relation o(Option<i32>, i32)', 'relation out(i32, i32)'],
+     ['out(y, z) <-- foo(x), let (y) = x + 1, bar(y, z)', 'out(y, z) <-- foo(x), for (y) in 0..3, bar(y, z)',
+      'out(*v, z) <-- o(w, x), if let (Some(v)) = w, bar(v, z)'], tags=['conds'])
 both('patarg', ['relation o(Option<i32>, i32)', 'relation q(i32)', 'relation k(i32)'],
      ['q(*v) <-- o(?Some(v), _)', 'q(*v) <-- k(x), o(?Some(v), x)'], tags=['patarg'])
 both('multihead', [E2, 'relation a(i32)', 'relation b(i32, i32)'],
@@ -98,6 +101,16 @@ both('lat_misc', ['relation inp(i32, i32)', 'lattice mx(i32)', 'lattice best(i32
       'big(*x) <-- best(x, v), if v.is_some()', 'seen(x, y) <-- pr(x, y, _)', 'mx(x + 1) <-- mx(x), if *x < 10'], tags=['lattice'])
 P('lat_allbound', ['relation inp(i32, i32)', 'lattice best(i32, i32)', 'relation probe(i32, i32)', 'relation hit(i32, i32)'],
   ['best(x, *y) <-- inp(x, y)', 'hit(x, v) <-- probe(x, v), best(x, v)'], tags=['lattice', 'lat_allbound'])
+both('lat_top', ['relation src(i32)', 'relation edge(i32, i32)', 'lattice marked(i32, bool)', 'relation live(i32, i32)', 'relation asg(i32, i64)',
+                 'lattice val(i32, ConstPropagation<i64>)', 'relation nonconst(i32)'],
+     ['marked(x, true) <-- src(x)', 'marked(y, true) <-- marked(x, true), edge(x, y)', 'live(x, y) <-- edge(x, y), marked(x, true), marked(y, true)',
+      'val(x, ConstPropagation::Constant(*c)) <-- asg(x, c)', 'nonconst(x) <-- val(x, ConstPropagation::Top)'],
+     uses='use ascent::lattice::constant_propagation::ConstPropagation;', tags=['lattice', 'lat_top'])
+P('lat_neg_par', ['relation inp(i32, i32)', 'lattice best(i32, i32)', 'relation cand(i32, i32)', 'relation miss(i32, i32)', 'relation n_exact(i32, usize)'],
+  ['best(x, *y) <-- inp(x, y)', 'miss(x, v) <-- cand(x, v), !best(x, v)', 'n_exact(x, c) <-- cand(x, v), agg c = count() in best(x, v)'],
+  macro='ascent_par', tags=['lattice', 'neg', 'agg', 'lat_allbound'])
+P('lat_allbound_par', ['relation inp(i32, i32)', 'lattice best(i32, i32)', 'relation probe(i32, i32)', 'relation hit(i32, i32)'],
+  ['best(x, *y) <-- inp(x, y)', 'hit(x, v) <-- probe(x, v), best(x, v)'], macro='ascent_par', tags=['lattice', 'lat_allbound'])
 P('lat_neg', ['relation inp(i32, i32)', 'lattice best(i32, i32)', 'relation cand(i32, i32)', 'relation miss(i32, i32)', 'relation n_exact(i32, usize)'],
   ['best(x, *y) <-- inp(x, y)', 'miss(x, v) <-- cand(x, v), !best(x, v)', 'n_exact(x, c) <-- cand(x, v), agg c = count() in best(x, v)'], tags=['lattice', 'neg', 'agg', 'lat_allbound'])
 both('lat_valkey', ['relation inp(i32, i32)', 'relation step(i32)', 'lattice best(i32, i32)', 'relation probev(i32)', 'relation byval(i32, i32)'],
